@@ -136,7 +136,7 @@ func escPath(p string) string { return (&url.URL{Path: p}).EscapedPath() }
 
 // BuildRequest turns a model request into a client-side *http.Request.
 func BuildRequest(r davtree.Req) (*http.Request, error) {
-	target := escPath(r.Path)
+	target := escPath(davtree.Spell(r.Path, r.PathForm))
 	if r.TrailingSlash && !strings.HasSuffix(target, "/") {
 		target += "/"
 	}
@@ -174,6 +174,8 @@ func BuildRequest(r davtree.Req) (*http.Request, error) {
 			d += "/"
 		}
 		req.Header.Set("Destination", d)
+	case "dotseg", "dblslash", "updown":
+		req.Header.Set("Destination", escPath(davtree.Spell(r.Dest, r.DestForm)))
 	case "garbage":
 		req.Header.Set("Destination", "http://[::1")
 	case "relative":
@@ -281,13 +283,17 @@ func classOf(t davtree.Tree, r davtree.Req) string {
 	switch r.Method {
 	case "COPY", "MOVE":
 		rel := "dest-" + r.DestForm
-		if r.DestForm == "path" || r.DestForm == "url" || r.DestForm == "slash" {
+		if davtree.DestNamesPath(r.DestForm) {
 			rel = "dst=" + t.DestRelation(r.Path, r.Dest)
 			if r.DestForm != "path" {
 				rel += "(" + r.DestForm + ")"
 			}
 		}
-		return fmt.Sprintf("src=%s|%s|depth=%s|ow=%s", t.TargetClass(r.Path), rel, depthClass(r.Depth), owClass(r.Overwrite))
+		src := t.TargetClass(r.Path)
+		if r.PathForm != "" {
+			src += "(" + r.PathForm + ")"
+		}
+		return fmt.Sprintf("src=%s|%s|depth=%s|ow=%s", src, rel, depthClass(r.Depth), owClass(r.Overwrite))
 	case "PROPFIND":
 		return fmt.Sprintf("target=%s|depth=%s|body=%s", t.TargetClass(r.Path), depthKey(r.Depth), r.PropBody)
 	case "MKCOL":
@@ -300,6 +306,9 @@ func classOf(t davtree.Tree, r davtree.Req) string {
 		return fmt.Sprintf("target=%s|%s", t.TargetClass(r.Path), v)
 	}
 	s := "target=" + t.TargetClass(r.Path)
+	if r.PathForm != "" {
+		s += "(" + r.PathForm + ")"
+	}
 	if r.TrailingSlash {
 		s += "|slash"
 	}
